@@ -66,6 +66,16 @@ check('C08', TV,
       'SMT (z3) HT-equivalence of real natural/mu output vs real tau* output, per enumerated rule',
       'DESIGN.md 5 (C08)')
 
+check('C04', TV,
+      'For every enumerated program and input-predicate set the real completion of the real tau* theory is compared by z3, '
+      'over ALL classical interpretations, with a reference Clark completion built from the same rule formulas; each '
+      'non-input predicate must get exactly one definition; for tight arithmetic-free programs the theorem itself '
+      '(completion models = stable models) is re-decided by the solver on a finite structure (constants + 2 symbolic '
+      'elements, H quantified); 15 hand-shaped theories check the refusal clause.',
+      BASE_NOTE + ' Reference completion: av/c04.py ref_completion. The finite-structure link covers arithmetic-free programs only.',
+      'SMT (z3) equivalence of real completion vs reference completion; solver-decided stable-model link on a finite structure',
+      'DESIGN.md 5 (C04)')
+
 NOT_APPLICABLE = [
     ('C10', 'thread pool + process spawning + regex over prover output: no symbolic reach for Kani/CBMC (no concurrency/process model) and nothing for an SMT encoding to carry; see DESIGN.md 6'),
     ('C11', 'graph algorithms over HashMap/petgraph/IndexSet on concrete programs: nothing left for a solver to quantify over, and symbolic programs are out of reach (DESIGN.md 1.1, 6)'),
